@@ -970,10 +970,24 @@ def install(prog):
     def b_str_index(ctx, a, callee):
         bs = sbytes(a[0])
         lo, hi = prog.range_bounds(D(a[1]), len(bs))
-        if lo > hi or hi > len(bs):
+        n = len(bs)
+        # symbolic bounds: fork over the positions inside the string; anything else is out of range
+        if is_sym(lo):
+            lo = ctx.concretize_int(lo, list(range(n + 1))) if ctx.branch(z3.ULE(lo, n)) else n + 1
+        if is_sym(hi):
+            hi = ctx.concretize_int(hi, list(range(n + 1))) if ctx.branch(z3.ULE(hi, n)) else n + 1
+
+        def boundary(i):
+            if i == 0 or i == n:
+                return True
+            b = bs[i]
+            if is_sym(b):
+                return not ctx.branch(z3.And(z3.UGE(b, 0x80), z3.ULT(b, 0xC0)))
+            return not (0x80 <= b < 0xC0)
+        if lo > hi or hi > n or not boundary(lo) or not boundary(hi):
             if callee.endswith('get'):
                 return NONE
-            raise Panic('byte index out of range of string')
+            raise Panic('byte index out of range of string or not on a char boundary', ctx.where())
         r = mkstr(bs[lo:hi])
         return some(r) if callee.endswith('::get') else r
 
